@@ -280,9 +280,11 @@ def world(tw):
                 "univ": c.universe.number if c.universe is not None else 0,
                 "notTruncated": bool(c._universe._not_truncated),
                 "fillMulti": bool(f.multiple_universes),
-                "fillUniverse": f.universe.number if f.universe is not None else None,
-                "fillHasUniverses": f.universes is not None,
-                "fillTransform": f.transform.number if f.transform is not None else None,
+                # the hidden attributes, not the getters: `Fill.universe` hides `_universe` while
+                # multiple_universes is set, and the state at the raise point is what is compared
+                "fillUniverse": f._universe.number if getattr(f, "_universe", None) is not None else None,
+                "fillHasUniverses": getattr(f, "_universes", None) is not None,
+                "fillTransform": f._transform.number if getattr(f, "_transform", None) is not None else None,
                 "fillHidden": bool(f.hidden_transform),
             }
         )
